@@ -349,6 +349,20 @@ def opScml : P String := do
   let bo := match s.bestObj with | some b => Wire.render b | none => "none"
   return s!"ok {bo} " ++ renderArr (s.bestW.toArray ++ s.w.toArray)
 
+/-- C12: LSML objective and gradient (Float twin; inverse / logdet by the twin's own Gauss–Jordan) -/
+def opLsml : P String := do
+  let d ← nat; let nq ← nat
+  let Ms ← readStore Float d d; let Ps ← readStore Float d d
+  let vab ← readVecs Float nq d; let vcd ← readVecs Float nq d
+  let w ← arr Float nq
+  finish
+  let M := Mat.ofStore Ms; let P := Mat.ofStore Ps
+  let quads := (vab.zip (vcd.zip w.toList))
+  let (inv, logdet) := gaussJordan d (Ms.toArray.map (·.toArray))
+  let Minv : Mat Float d d := fun a b => (inv.getD a.val #[]).getD b.val 0
+  let G := (lsmlGradient M P Minv quads).store
+  return "ok " ++ renderArr (#[lsmlLoss M P logdet quads] ++ (Mat.ofStore G).toArray)
+
 def optInt : P (Option Int) := do
   let t ← next
   if t == "none" then return none
@@ -387,6 +401,7 @@ def dispatch : P String := do
   | "sdp_check" | "cfm_eig" | "cfm_diag" | "pinv_eig" | "init_metric" => opPsd op
   | "pairs" | "chunks" | "knn_class" | "knn_clip" => opConstraints op
   | "form" => opForm
+  | "lsml_eval" => opLsml
   | "scml_replay" => opScml
   | "mmc_budget" | "mmc_fd" | "mmc_gradproj" | "mmc_halfspace" | "mmc_psdproj" | "mmc_dobj" => opMmc op
   | "itml_run" => opItml
